@@ -75,7 +75,7 @@ template <int S> struct Runner {
 template <int S> static void explore(Ctx &c, long &id) {
   const bool th = c.args.thorough();
   static const double ratios[] = {2, 4, 8, 16, 32, 50, 64, 100};
-  const int N2max = th ? 10 : 8, N3max = th ? 6 : 4;
+  const int N2max = th ? 12 : 8, N3max = th ? 7 : 4;
   // overall time scale: the property quantifies over every accepted duration vector (entries >= 1 ms), so the
   // {lo,hi} alphabet is also run at scales 2^-6, 2^6 and 2^10 (two-letter words only; lo*scale stays >= 1 ms)
   static const double scales[] = {1.0, 0.015625, 64.0, 1024.0};
